@@ -23,9 +23,11 @@ namespace gtry::scl{
 	UInt biggestPowerOfTwo(const UInt& input) {
 		UInt result = ConstUInt(0, input.width());
 		for (size_t i = 0; i < input.width().bits(); i++){
-			UInt candidate = 1 << i;
+			// note: `1 << i` is an int shift, which overflows for i >= 31
+			UInt candidate = ConstUInt(0, input.width());
+			candidate[i] = '1';
 			IF(input.at(i) == '1')
-				result = zext(candidate);
+				result = candidate;
 		}
 		return result;
 	}
